@@ -735,6 +735,173 @@ theorem monotone_alpine (p p' : Pkg) (v : Vuln) (h : vulnerableAlpine p v = .ok 
         · simp [h1, h2] at h
       · simp [h1] at h
 
+/-! ### Bytes outside ASCII (go-rpm-version)
+
+The rpm model is over byte strings: the segment pattern's classes are ASCII,
+so every byte ≥ 0x80 separates segments; the only place the library decodes
+UTF-8 is the white-space trimming left of the epoch. -/
+
+/-- On ASCII input the Unicode-aware trimming is the ASCII trimming. -/
+theorem rpm_trim_space_ascii : ∀ (s : Str), (∀ c ∈ s, c.toNat < 128) → trimLeftSpace s = trimLeft isSpace s
+  | [], _ => rfl
+  | c :: cs, h => by
+    have hc : c.toNat < 128 := h c List.mem_cons_self
+    unfold trimLeftSpace trimLeft
+    by_cases hs : isSpace c = true
+    · simp only [hs, if_true]
+      exact rpm_trim_space_ascii cs fun x hx => h x (List.mem_cons_of_mem _ hx)
+    · simp only [hs, Bool.false_eq_true, if_false]
+      split <;> first | rfl | omega
+
+/-- A no-break space (C2 A0) or an em space (E2 80 83) left of the epoch is
+    trimmed and the epoch counts; a zero-width space (E2 80 8B) is no white
+    space, the epoch does not parse and is 0; a byte ≥ 0x80 inside a version
+    only separates segments (`1é2` is `1.2`). -/
+theorem rpm_non_ascii_examples :
+    VerRpm.cmpStr [Char.ofNat 0xC2, Char.ofNat 0xA0, '1', ':', '1'] ['2'] = .gt ∧
+    VerRpm.cmpStr [Char.ofNat 0xE2, Char.ofNat 0x80, Char.ofNat 0x83, '1', ':', '1'] ['2'] = .gt ∧
+    VerRpm.cmpStr [Char.ofNat 0xE2, Char.ofNat 0x80, Char.ofNat 0x8B, '1', ':', '1'] ['2'] = .lt ∧
+    VerRpm.cmpStr ['1', Char.ofNat 0xC3, Char.ofNat 0xA9, '2'] ['1', '.', '2'] = .eq := by
+  decide
+
+/-! ### `Vulnerable`, branch by branch: the full characterisation per matcher
+
+(the `vulnerable_iff_lt_*`, `no_fix_*`, `arch_respected_*`, `gate_respected_*`
+theorems above are its pieces; debian / ubuntu / alpine / the OSV matchers
+have theirs above: `vulnerable_iff_lt_*`, `range_honoured_*`). -/
+
+/-- The decision shared by the go-rpm-version matchers: strictly below the
+    fix when one is named, otherwise not above the bound. -/
+theorem rpm_below_iff (pv f b : Str) :
+    rpmBelow pv f b = true ↔
+      (f ≠ [] ∧ VerRpm.cmpStr pv f = .lt) ∨ (f = [] ∧ VerRpm.cmpStr pv b ≠ .gt) := by
+  unfold rpmBelow
+  by_cases hf : f = []
+  · simp [hf]
+  · simp [hf]
+
+/-- aws: reported iff (below the fix | unfixed and not above `65535:0`) and the architecture test passes. -/
+theorem vulnerable_iff_aws (p : Pkg) (v : Vuln) :
+    vulnerableAws p v = .ok true ↔
+      ((v.fixed ≠ [] ∧ VerRpm.cmpStr p.version v.fixed = .lt) ∨
+       (v.fixed = [] ∧ VerRpm.cmpStr p.version unfixedBound ≠ .gt)) ∧ v.archOK p = true := by
+  simp only [vulnerableAws, Out.ok.injEq, Bool.and_eq_true, rpm_below_iff]
+
+/-- oracle: the bound without a fix is the advisory's package version (closed). -/
+theorem vulnerable_iff_oracle (p : Pkg) (v : Vuln) :
+    vulnerableOracle p v = .ok true ↔
+      ((v.fixed ≠ [] ∧ VerRpm.cmpStr p.version v.fixed = .lt) ∨
+       (v.fixed = [] ∧ VerRpm.cmpStr p.version v.pkgVersion ≠ .gt)) ∧ v.archOK p = true := by
+  simp only [vulnerableOracle, Out.ok.injEq, Bool.and_eq_true, rpm_below_iff]
+
+/-- suse: as oracle. -/
+theorem vulnerable_iff_suse (p : Pkg) (v : Vuln) :
+    vulnerableSuse p v = .ok true ↔
+      ((v.fixed ≠ [] ∧ VerRpm.cmpStr p.version v.fixed = .lt) ∨
+       (v.fixed = [] ∧ VerRpm.cmpStr p.version v.pkgVersion ≠ .gt)) ∧ v.archOK p = true := by
+  simp only [vulnerableSuse, Out.ok.injEq, Bool.and_eq_true, rpm_below_iff]
+
+/-- photon: as oracle, without an architecture test. -/
+theorem vulnerable_iff_photon (p : Pkg) (v : Vuln) :
+    vulnerablePhoton p v = .ok true ↔
+      (v.fixed ≠ [] ∧ VerRpm.cmpStr p.version v.fixed = .lt) ∨
+      (v.fixed = [] ∧ VerRpm.cmpStr p.version v.pkgVersion ≠ .gt) := by
+  simp only [vulnerablePhoton, Out.ok.injEq, rpm_below_iff]
+
+/-- rhel: the repository gate (both repositories present, the advisory's key
+    is the rhel CPE key, its name unbinds as a CPE that is a superset of — or a
+    "substring pattern" for — the record's repository CPE), then the aws decision. -/
+theorem vulnerable_iff_rhel (g : RhelGate) (p : Pkg) (v : Vuln) :
+    vulnerableRhel g p v = .ok true ↔
+      (g.vulnRepoNil = false ∧ g.recRepoNil = false ∧ g.keyOK = true ∧ g.unbindOK = true ∧
+        (g.superset = true ∨ g.substring = true)) ∧
+      ((v.fixed ≠ [] ∧ VerRpm.cmpStr p.version v.fixed = .lt) ∨
+       (v.fixed = [] ∧ VerRpm.cmpStr p.version unfixedBound ≠ .gt)) ∧ v.archOK p = true := by
+  rw [vulnerableRhel_eq]
+  simp only [Out.ok.injEq, Bool.and_eq_true, rpm_below_iff, RhelGate.pass]
+  cases g.vulnRepoNil <;> cases g.recRepoNil <;> cases g.keyOK <;> cases g.unbindOK <;>
+    cases g.superset <;> cases g.substring <;> simp
+
+/-- rhcc: strictly below `FixedInVersion` whatever it is (no sentinel, no architecture). -/
+theorem vulnerable_iff_rhcc (p : Pkg) (v : Vuln) :
+    vulnerableRhcc p v = .ok true ↔ VerRpm.cmpStr p.version v.fixed = .lt := by
+  simp [vulnerableRhcc]
+
+/-- None of the go-rpm-version matchers ever fails or hangs. -/
+theorem rpm_matchers_always_answer (g : RhelGate) (p : Pkg) (v : Vuln) :
+    (∃ b, vulnerableAws p v = .ok b) ∧ (∃ b, vulnerableOracle p v = .ok b) ∧ (∃ b, vulnerableSuse p v = .ok b) ∧
+    (∃ b, vulnerablePhoton p v = .ok b) ∧ (∃ b, vulnerableRhel g p v = .ok b) ∧ (∃ b, vulnerableRhcc p v = .ok b) :=
+  ⟨⟨_, rfl⟩, ⟨_, rfl⟩, ⟨_, rfl⟩, ⟨_, rfl⟩, ⟨_, vulnerableRhel_eq g p v⟩, ⟨_, rfl⟩⟩
+
+/-- gobin / nodejs: `Vulnerable` itself never reports (the database decides). -/
+theorem vulnerable_iff_noop (p : Pkg) (v : Vuln) : vulnerableNoop p v = .ok false := rfl
+
+/-- The anchored pattern forms `^(lit|lit|…)$`: the architecture must be one
+    of the alternatives, whole (no substring match). -/
+theorem archop_anchored_alternation (a inner : Str) (re : Option Bool) (ha : a ≠ [])
+    (hl : isLiteralAlt inner = true) :
+    archCmp 3 a ('^' :: '(' :: (inner ++ [')', '$'])) (reVerdict ('^' :: '(' :: (inner ++ [')', '$'])) a re) = true ↔
+      a ∈ altMatch.splitOnBar inner := by
+  have hnl : isLiteralAlt ('^' :: '(' :: (inner ++ [')', '$'])) = false := by
+    simp [isLiteralAlt, isLiteralChar, isDigit, isLetter, isLower, isUpper]
+  have hrev : (inner ++ [')', '$']).reverse = '$' :: ')' :: inner.reverse := by simp
+  simp only [archCmp, ha, if_false, reVerdict, hnl, anchoredAlt, hrev, List.reverse_reverse, hl, if_true,
+    reduceCtorEq, Bool.false_eq_true, List.contains_eq_mem, decide_eq_true_eq]
+
+theorem archop_anchored_alternation_examples :
+    archCmp 3 "ppc64le".toList "^(x86_64|ppc64le)$".toList (reVerdict "^(x86_64|ppc64le)$".toList "ppc64le".toList none) = true ∧
+    archCmp 3 "ppc64".toList "^(x86_64|ppc64le)$".toList (reVerdict "^(x86_64|ppc64le)$".toList "ppc64".toList none) = false ∧
+    archCmp 3 "x86_64".toList "^x86$".toList (reVerdict "^x86$".toList "x86_64".toList none) = false := by
+  decide
+
+/-! ### `Range.Contains` against the database side: kinds -/
+
+/-- An inverted or empty range (`Upper ≤ Lower`, in particular the zero
+    `Range{}`) contains nothing. -/
+theorem range_empty_contains_nothing (r : NRange) (v : NVersion) (h : r.upper.compare r.lower ≠ .gt) :
+    rangeContains (some r) v = false := by
+  cases hc : rangeContains (some r) v with
+  | false => rfl
+  | true =>
+    exfalso
+    simp only [rangeContains, Bool.and_eq_true, decide_eq_true_eq] at hc
+    have hvu : v.compare r.upper = .lt := by
+      rw [nversion_compare_totalPre.swap, hc.2]; rfl
+    have := nversion_compare_totalPre.lt_of_lt_of_le hvu h
+    have h2 := nversion_compare_totalPre.swap v r.lower
+    rw [this] at h2
+    exact hc.1 (by rw [h2]; rfl)
+
+/-- When both ends of the range are of one kind, `Contains` holds only for
+    versions of that kind: the Go twin and the SQL test (`version_kind = kind
+    AND vulnerable_range @> v`) agree on every version. -/
+theorem range_same_kind_agrees_with_db (r : NRange) (v : NVersion) (hk : r.lower.kind = r.upper.kind) :
+    dbSideHit (some r) v = rangeContains (some r) v := by
+  cases hc : rangeContains (some r) v with
+  | false => simp [dbSideHit, hc]
+  | true =>
+    simp only [dbSideHit, hk, hc, decide_true, Bool.true_and, Bool.and_true, decide_eq_true_eq]
+    simp only [rangeContains, Bool.and_eq_true, decide_eq_true_eq] at hc
+    by_cases hkv : r.upper.kind = v.kind
+    · exact hkv
+    · exfalso
+      have hlk : r.lower.kind ≠ v.kind := by rw [hk]; exact hkv
+      have h1 : r.lower.compare v = strCmp r.lower.kind v.kind := by simp [NVersion.compare, hlk]
+      have h2 : r.upper.compare v = strCmp r.upper.kind v.kind := by simp [NVersion.compare, hkv]
+      rw [h1] at hc; rw [h2, ← hk] at hc
+      have hne : strCmp r.lower.kind v.kind ≠ .eq := fun e => hlk (strCmp_eq.1 e)
+      cases hs : strCmp r.lower.kind v.kind <;> simp_all
+
+/-- With ends of different kinds `Contains` orders by the kind strings alone
+    and can hold for a version of a third kind whatever the numbers are — the
+    database side (which stores no kind for such a range) never does. -/
+theorem range_mixed_kinds_counterexample :
+    let r : NRange := { lower := { kind := "a".toList, v := [9,9,9,9,9,9,9,9,9,9] },
+                        upper := { kind := "z".toList, v := [0,0,0,0,0,0,0,0,0,0] } }
+    let v : NVersion := { kind := "m".toList, v := [5,0,0,0,0,0,0,0,0,0] }
+    rangeContains (some r) v = true ∧ dbSideHit (some r) v = false := by
+  decide
+
 /-! ### Scan level: the registered default matchers through `Controller.Match` / `matcher.Match`
 
 `MatchScan.matchOne m recs advs` is what one controller delivers for the
